@@ -43,6 +43,7 @@ struct Pair {
 	size_t unflushed[2] = { 0, 0 };
 	bool reneg_started = false;
 	bool any_close = false;
+	bool may_fail = false;     // set by the phases that feed hostile input or swap buffers under a running connection
 	uint64_t seed[2] = { 0xA1, 0xB2 };
 	uint64_t partial_acks = 0, mode_switches = 0, skipped = 0, excluded = 0;
 	std::string cfg;
@@ -187,6 +188,11 @@ static bool apply(Pair &P, int side, unsigned cmd, unsigned ksel, bool exclude_k
 	}
 	unsigned after = e->state();
 	if ((before ^ after) & (BR_SSL_SENDAPP | BR_SSL_RECVREC | BR_SSL_SENDREC)) P.mode_switches++;
+	// two honest endpoints, only API-legal calls, nobody asked for closure or renegotiation: no call may end the connection
+	// (an engine that fails on its own loses the bytes it was holding)
+	if (!P.any_close && !P.reneg_started && !P.may_fail)
+		VF_CHECK(!e->closed(), "%s: %s closed itself (error %d) in %s although nobody closed, renegotiated or tampered: %zu/%zu bytes written, %zu/%zu delivered", P.cfg.c_str(), e->name.c_str(), e->error(), CN[cmd],
+			P.sent[0], P.sent[1], P.recvd[0], P.recvd[1]);
 	return true;
 }
 
@@ -288,6 +294,7 @@ static bool probes_done = false;
 // call), and the pair then completes a handshake and moves data.
 static void rebuffer_case(Pair &P, Tape &t, unsigned cfgb, unsigned sizeb, unsigned nround)
 {
+	P.may_fail = true;              // the peer of a context that is re-buffered and reset mid-connection sees a broken handshake
 	unsigned before = t.u8() % 3;   // 0: fresh context, 1: after some handshake rounds, 2: after a full connection
 	if (before == 1) for (unsigned i = 0; i < nround % 24; i++) pump_round(P);
 	if (before == 2) { for (int i = 0; i < 600 && !established(P); i++) pump_round(P); VF_CHECK(established(P), "%s: handshake failed", P.cfg.c_str()); }
